@@ -93,7 +93,7 @@ func init() {
 			case src == "idk.mutex.Unlock()":
 				unlockIdx = i
 			}
-			if strings.Contains(src, "idk.data") || strings.Contains(src, "bndl.PrimaryBlock") && !strings.HasPrefix(src, "var tpl") {
+			if strings.Contains(src, "idk.data") || strings.Contains(src, "idk.used") || strings.Contains(src, "bndl.PrimaryBlock") && !strings.HasPrefix(src, "var tpl") {
 				if firstAcc < 0 {
 					firstAcc = i
 				}
@@ -147,6 +147,20 @@ func init() {
 			x.Failf("IdKeeper.clean: `var threshold = bpv7.DtnTimeNow() - <constant>` not found")
 		}
 		x.Nat("cleanWindow", window)
+		// what is compared with the threshold: the time of the tuple's last use (map `used`, written by update inside
+		// its critical section) or the tuple's creation time
+		byUse, usedWritten := false, false
+		for _, l := range x.Skeleton(cl) {
+			if strings.TrimSpace(l) == "if used < threshold && tpl.time != bpv7.DtnTimeEpoch" {
+				byUse = true
+			}
+		}
+		for _, l := range x.Skeleton(up) {
+			if strings.TrimSpace(l) == "idk.used[tpl] = bpv7.DtnTimeNow()" {
+				usedWritten = true
+			}
+		}
+		x.Bool("cleanJudgesByUse", byUse && usedWritten)
 		// unit of DtnTime: DtnTimeFromTime divides UnixNano by nanoToMilli
 		x.Nat("nanoToMilli", x.MustConst(bpv7Dir, "nanoToMilli"))
 		skel("dtnTimeFromTimeSkeleton", bpv7Dir, "", "DtnTimeFromTime")
